@@ -2668,6 +2668,9 @@ var NameSchemes = []NameScheme{
 	{"spaces", []string{"A", "B", "A B", "B A", "A B A", " ", "A  B", `"a" "b"`, "B  A"}, []string{"a", "b", "a b", " b"}},
 	// terminals in upper case: named like the non-terminals, and sorted among them
 	{"upper-case-terminals", []string{"S", "A", "B", "C", "D", "E", "U", "V", "N"}, []string{"A", "S", "B", "a", "Z0"}},
+	// names that embed what a home-made key might put BETWEEN two symbols (a kind letter, a separator): with a key such as
+	// kind letter + name + blank per symbol, [A, B] and the single non-terminal "A nB" are written alike (ProxyFormCollisions)
+	{"embedded-keys", []string{"A", "B", "A nB", "A tb", "A,nB", "A|B", "A,B", "nA", "A NB"}, []string{"b", "a", "b nA", "a,b", "tb"}},
 }
 
 func pickNames(r *hx.Rand, pool []string, k int, prefix bool) []string {
@@ -2763,6 +2766,45 @@ func WrittenFormCollisions(g gx.G, k int) [][][]string { return collisions(g, k,
 // RenderedAlike: the same for String() (joined by a space).
 func RenderedAlike(g gx.G, k int) [][][]string { return collisions(g, k, Rendered, "ε") }
 
+// ProxyFormCollisions: the same for renderings the library does NOT use today but a memo table or a "seen" set might
+// plausibly be keyed by after a change: an optional kind letter in front of every name, a separator between (or a
+// terminator behind) the names.  A key of that kind is a proxy for the string of symbols, and the property holds only if
+// the proxy is injective on the strings that actually occur; so strings that collide under one of these renderings are
+// put into one grammar and asked of one FIRST closure (seeded change C10-u1: kind letter + name + blank).
+func ProxyFormCollisions(g gx.G, k int) [][][]string {
+	var out [][][]string
+	for _, kd := range [][2]string{{"t", "n"}, {"T", "N"}, {"", ""}} {
+		for _, sep := range []string{" ", ",", "|", ""} {
+			for _, terminated := range []bool{false, true} {
+				if kd[0] == "" && !terminated && (sep == "" || sep == " ") {
+					continue // these are WrittenForm / Rendered up to the quotes
+				}
+				kd, sep, terminated := kd, sep, terminated
+				form := func(g gx.G, s []string) string {
+					var b strings.Builder
+					for i, x := range s {
+						if i > 0 && !terminated {
+							b.WriteString(sep)
+						}
+						if g.IsNonTerm(x) {
+							b.WriteString(kd[1])
+						} else {
+							b.WriteString(kd[0])
+						}
+						b.WriteString(x)
+						if terminated {
+							b.WriteString(sep)
+						}
+					}
+					return b.String()
+				}
+				out = append(out, collisions(g, k, form, "")...)
+			}
+		}
+	}
+	return out
+}
+
 func collisions(g gx.G, k int, form func(gx.G, []string) string, empty string) [][][]string {
 	by := map[string][][]string{empty: {{}}}
 	var order []string
@@ -2836,6 +2878,9 @@ func Colliding(r *hx.Rand, g gx.G, sc NameScheme) (gx.G, [][]string) {
 	}
 	g = Rename(r, g, sc, true)
 	groups := append(WrittenFormCollisions(g, 3), RenderedAlike(g, 3)...)
+	if sc.Name == "embedded-keys" || len(groups) == 0 {
+		groups = append(groups, ProxyFormCollisions(g, 3)...)
+	}
 	if len(groups) == 0 {
 		return g, nil
 	}
